@@ -35,7 +35,6 @@ CONSTANTS Kinds,        \* back-ends explored by the design configs (subset of t
           K,            \* memdb bufferSize in the design configs
           Rounds,       \* round alphabet of the environment
           Vals,         \* value identities
-          MaxPos,       \* design bound on memdb's cursor position (Next increments it for ever)
           MutInCursor   \* design: may Put/Del run while a bolt cursor (read tx) is open?
 
 VARIABLES b,      \* back-end kind of this behaviour
@@ -108,21 +107,25 @@ RefLen(mm)        == Count(Cardinality(DOMAIN mm))
 \* reference cursor: a position in round order over a view of the map.
 \*   bolt kinds: the view is the snapshot taken when the cursor was opened (read transaction)
 \*   memdb     : the view is the live map
-\*   state "fresh" (never positioned) | "at" round | "end" (ran off the end; sticky)
+\*   state "fresh" (never positioned) | "at" round | "end" (bolt kinds: ran off the end of
+\*   the snapshot).  On the live view of the ring a call that finds nothing leaves the cursor
+\*   where it was: rounds put later are found by a later Next.
 ClosedRC == [state |-> "closed", round |-> 0, view |-> EmptyMap]
 RefOpen(bk, mm) == [state |-> "fresh", round |-> 0, view |-> IF IsBoltKind(bk) THEN mm ELSE EmptyMap]
 ViewOf(bk, mm, c) == IF IsBoltKind(bk) THEN c.view ELSE mm
 RAt(c, r) == [c EXCEPT !.state = "at", !.round = r]
 REnd(c)   == [c EXCEPT !.state = "end", !.round = 0]
+\* where a call that found nothing leaves the cursor
+RMiss(bk, c) == IF bk = "memdb" THEN c ELSE REnd(c)
 
 RefFirst(bk, mm, c) ==
   LET V == ViewOf(bk, mm, c) IN
-  IF DOMAIN V = {} THEN [c |-> REnd(c), res |-> NotFound]
+  IF DOMAIN V = {} THEN [c |-> RMiss(bk, c), res |-> NotFound]
   ELSE LET r == MinOf(DOMAIN V) IN [c |-> RAt(c, r), res |-> RefBeacon(bk, V, r)]
 
 RefCLast(bk, mm, c) ==
   LET V == ViewOf(bk, mm, c) IN
-  IF DOMAIN V = {} THEN [c |-> REnd(c), res |-> NotFound]
+  IF DOMAIN V = {} THEN [c |-> RMiss(bk, c), res |-> NotFound]
   ELSE LET r == MaxOf(DOMAIN V) IN [c |-> RAt(c, r), res |-> RefBeacon(bk, V, r)]
 
 \* Seek(r): the beacon of r; for an absent r the bolt kinds answer the least stored round >= r
@@ -148,7 +151,7 @@ RefNext(bk, mm, c) ==
       up == {x \in DOMAIN V : x > from}
   IN IF c.state = "end" THEN [c |-> c, res |-> NotFound]
      ELSE IF c.state = "fresh" /\ (IsBoltKind(bk) \/ DOMAIN V = {}) THEN [c |-> c, res |-> NotFound]
-     ELSE IF up = {} THEN [c |-> REnd(c), res |-> NotFound]
+     ELSE IF up = {} THEN [c |-> RMiss(bk, c), res |-> NotFound]
      ELSE LET x == MinOf(up) IN [c |-> RAt(c, x), res |-> RefBeacon(bk, V, x)]
 
 -----------------------------------------------------------------------------
@@ -156,7 +159,6 @@ RefNext(bk, mm, c) ==
 
 Has(s, r) == \E i \in DOMAIN s : s[i].round = r
 EntryAt(s, r) == s[CHOOSE i \in DOMAIN s : s[i].round = r]
-IdxOf(s, r) == CHOOSE i \in DOMAIN s : s[i].round = r
 Without(s, r) == SelectSeq(s, LAMBDA e : e.round # r)
 \* sorted insert; an entry with the same key is replaced (bucket.Put)
 Insert(s, e) == SelectSeq(s, LAMBDA x : x.round < e.round) \o <<e>> \o SelectSeq(s, LAMBDA x : x.round > e.round)
@@ -177,9 +179,9 @@ ImplPut(bk, k, s, r, v) ==
 
 ImplDel(s, r) == Without(s, r)
 
-\* trimmed.go getBeacon / getCursorBeacon / trimmedBoltCursor.Seek: the beacon is built from
-\* a LABEL (requested round in getBeacon and Seek, the key in getCursorBeacon) and the
-\* signature found; with requiresPrevious and label > 0 the signature stored under label-1 is
+\* trimmed.go getBeacon / getCursorBeacon (First, Next, Seek, Last): the beacon is built from
+\* a LABEL (requested round in getBeacon - an exact match -, the key found in getCursorBeacon)
+\* and the signature found; with requiresPrevious and label > 0 the signature stored under label-1 is
 \* fetched, a miss is ErrNoBeaconStored.
 TrimRead(bk, s, e, label) ==
   IF NeedsPrev(bk) /\ label > 0
@@ -195,9 +197,15 @@ ImplLen(s)        == Count(Len(s))
 
 \* cursor.  bolt kinds: bbolt cursor over the read transaction's snapshot, pos 0 = fresh
 \* (empty stack: Next returns nil), 1..Len = on that element, Len+1 = past the end.
-\* memdb: memDBCursor{pos} is a 0-based index into the LIVE slice, initially 0.
-ClosedCur == [open |-> FALSE, pos |-> 0, snap |-> <<>>]
-ImplOpen(bk, s) == [open |-> TRUE, pos |-> 0, snap |-> IF IsBoltKind(bk) THEN s ELSE <<>>]
+\* memdb: memDBCursor{round, positioned} over the LIVE slice: the round of the beacon the
+\* cursor is on (since the repair of F15; before, an index into the slice).
+ClosedCur == [open |-> FALSE, pos |-> 0, snap |-> <<>>, round |-> 0, set |-> FALSE]
+ImplOpen(bk, s) == [open |-> TRUE, pos |-> 0, snap |-> IF IsBoltKind(bk) THEN s ELSE <<>>, round |-> 0, set |-> FALSE]
+MoveTo(c, e) == [c EXCEPT !.round = e.round, !.set = TRUE]
+\* sort.Search: index of the first entry with a greater round, 0 if there is none
+AboveIdx(s, r) == IF \E i \in DOMAIN s : s[i].round > r
+                    THEN CHOOSE i \in DOMAIN s : s[i].round > r /\ \A j \in DOMAIN s : s[j].round > r => i <= j
+                    ELSE 0
 CeilIdx(sn, r) == IF \E i \in DOMAIN sn : sn[i].round >= r
                     THEN CHOOSE i \in DOMAIN sn : sn[i].round >= r /\ \A j \in DOMAIN sn : sn[j].round >= r => i <= j
                     ELSE 0
@@ -208,7 +216,7 @@ ImplFirst(bk, s, c) ==
          IF Len(sn) = 0 THEN [c |-> [c EXCEPT !.pos = 1], res |-> NotFound]
          ELSE [c |-> [c EXCEPT !.pos = 1], res |-> ReadEntry(bk, sn, sn[1], sn[1].round)]
     ELSE IF Len(s) = 0 THEN [c |-> c, res |-> NotFound]
-         ELSE [c |-> [c EXCEPT !.pos = 0], res |-> ReadEntry(bk, s, s[1], s[1].round)]
+         ELSE [c |-> MoveTo(c, s[1]), res |-> ReadEntry(bk, s, s[1], s[1].round)]
 
 ImplCLast(bk, s, c) ==
   IF IsBoltKind(bk)
@@ -216,7 +224,7 @@ ImplCLast(bk, s, c) ==
          IF Len(sn) = 0 THEN [c |-> [c EXCEPT !.pos = 1], res |-> NotFound]
          ELSE [c |-> [c EXCEPT !.pos = Len(sn)], res |-> ReadEntry(bk, sn, sn[Len(sn)], sn[Len(sn)].round)]
     ELSE IF Len(s) = 0 THEN [c |-> c, res |-> NotFound]
-         ELSE [c |-> [c EXCEPT !.pos = Len(s) - 1], res |-> ReadEntry(bk, s, s[Len(s)], s[Len(s)].round)]
+         ELSE [c |-> MoveTo(c, s[Len(s)]), res |-> ReadEntry(bk, s, s[Len(s)], s[Len(s)].round)]
 
 ImplNext(bk, s, c) ==
   IF IsBoltKind(bk)
@@ -225,22 +233,23 @@ ImplNext(bk, s, c) ==
          ELSE IF c.pos >= Len(sn) THEN [c |-> [c EXCEPT !.pos = Len(sn) + 1], res |-> NotFound]
          ELSE [c |-> [c EXCEPT !.pos = c.pos + 1],
                res |-> ReadEntry(bk, sn, sn[c.pos + 1], sn[c.pos + 1].round)]
-    ELSE IF Len(s) = 0 THEN [c |-> c, res |-> NotFound]                 \* pos untouched
-         ELSE IF c.pos + 1 >= Len(s) THEN [c |-> [c EXCEPT !.pos = c.pos + 1], res |-> NotFound]
-         ELSE [c |-> [c EXCEPT !.pos = c.pos + 1],
-               res |-> ReadEntry(bk, s, s[c.pos + 2], s[c.pos + 2].round)]
+    ELSE \* memDBCursor.Next: never positioned = as if on the first beacon (index 1 of the 0-based
+         \* slice); otherwise the first beacon with a greater round; a miss leaves the cursor alone
+         LET i == IF ~c.set THEN (IF Len(s) >= 2 THEN 2 ELSE 0) ELSE AboveIdx(s, c.round) IN
+         IF Len(s) = 0 \/ i = 0 THEN [c |-> c, res |-> NotFound]
+         ELSE [c |-> MoveTo(c, s[i]), res |-> ReadEntry(bk, s, s[i], s[i].round)]
 
 \* boltCursor.Seek: bbolt Seek = least key >= requested, the beacon is the stored JSON.
-\* trimmedBoltCursor.Seek: same positioning, but the beacon is LABELLED WITH THE REQUESTED
-\*   ROUND and carries the signature found (named deviation F7 when the round is absent).
-\* memDBCursor.Seek: exact match only; pos untouched on a miss.
+\* trimmedBoltCursor.Seek: same positioning; the beacon is built by getCursorBeacon from the KEY
+\*   FOUND (since the repair of F7; before, it was labelled with the requested round).
+\* memDBCursor.Seek: exact match only; the cursor is untouched on a miss.
 ImplSeek(bk, s, c, r) ==
   IF IsBoltKind(bk)
     THEN LET sn == c.snap
              i == CeilIdx(sn, r)
          IN IF i = 0 THEN [c |-> [c EXCEPT !.pos = Len(sn) + 1], res |-> NotFound]
-            ELSE [c |-> [c EXCEPT !.pos = i], res |-> ReadEntry(bk, sn, sn[i], r)]
-    ELSE IF Has(s, r) THEN [c |-> [c EXCEPT !.pos = IdxOf(s, r) - 1], res |-> ReadEntry(bk, s, EntryAt(s, r), r)]
+            ELSE [c |-> [c EXCEPT !.pos = i], res |-> ReadEntry(bk, sn, sn[i], sn[i].round)]
+    ELSE IF Has(s, r) THEN [c |-> MoveTo(c, EntryAt(s, r)), res |-> ReadEntry(bk, s, EntryAt(s, r), r)]
          ELSE [c |-> c, res |-> NotFound]
 
 -----------------------------------------------------------------------------
@@ -365,14 +374,11 @@ MonitorHolds(name, bk, S, o, r, obs, x) ==
 FailedMonitors(bk, S, o, r, obs, x) ==
   {MonitorNames[i] : i \in {j \in DOMAIN MonitorNames : ~MonitorHolds(MonitorNames[j], bk, S, o, r, obs, x)}}
 
-\* Named deviations of the code from the reference (DESIGN section 8): the design model
-\* contains them because it transcribes the code; TLC reports them on the strict configs and
-\* they become verdicts only when the trace monitors see them on the real stores.
-\*  F7  trimmed Seek of an absent round: next key's signature labelled with the requested round
-\*  F15 memdb positional cursor: Next after the slice shifted under the cursor
-NamedDeviation(bk, shape) ==
-  \/ IsTrimmed(bk) /\ shape = "seek-absent-round"
-  \/ bk = "memdb" /\ shape = "next-after-mutation"
+\* Named deviations of the code from the reference (DESIGN section 8).  None is left: F7
+\* (trimmed Seek of an absent round labelled with the requested round) and F15 (memdb cursor
+\* positioned by slice index) were repaired in the code and the transcription above follows the
+\* repaired code.  The operator stays as the place where a future recorded deviation is named.
+NamedDeviation(bk, shape) == FALSE
 
 -----------------------------------------------------------------------------
 (* Design-level state machine: the environment calls anything, any time      *)
@@ -386,7 +392,6 @@ Init == /\ b \in Kinds
 
 Call(o, r, v) ==
   /\ CanCall(b, Cur, o, MutInCursor)
-  /\ (o = "next" /\ b = "memdb") => cur.pos < MaxPos
   /\ \E x \in {Apply(b, K, Cur, o, r, v)} :      \* (bound once: TLC re-evaluates LET bodies)
      /\ st' = x.S.st /\ m' = x.S.m /\ cur' = x.S.cur /\ rc' = x.S.rc /\ dirty' = x.S.dirty
      /\ op' = [op |-> o, round |-> r, v |-> v, res |-> x.res, exp |-> x.exp, shape |-> x.shape, b |-> b, k |-> K]
@@ -421,8 +426,8 @@ StepOK(names) ==
 
 AllMonitors == {MonitorNames[i] : i \in DOMAIN MonitorNames}
 
-\* strict: the transcribed code satisfies every monitor at every call (holds for "bolt"; FAILS for
-\* the trimmed kinds and memdb: F7, F15 - Sim_StoreBackend!Act_Classify prints one path per class)
+\* strict: the transcribed code satisfies every monitor at every call
+\* (Sim_StoreBackend!Act_Classify prints one path per class of failure, should there be any)
 Act_Strict == [][StepOK(AllMonitors)]_vars
 \* modulo the named deviations the transcribed code is the sorted map (must hold, complete graph)
 Act_ModuloNamed == [][NamedDeviation(b, op'.shape) \/ StepOK(AllMonitors)]_vars
